@@ -4,12 +4,17 @@
 use std::fmt::Write as _;
 
 fn main() {
-    let path = "/repo/src/abi.rs";
+    // the crate under test: /repo unless ELFMON_REPO says otherwise (scratch development copies)
+    println!("cargo:rerun-if-env-changed=ELFMON_REPO");
+    let repo = std::env::var("ELFMON_REPO").unwrap_or_else(|_| "/repo".to_string());
+    let path = format!("{repo}/src/abi.rs");
+    let path = path.as_str();
     println!("cargo:rerun-if-changed={path}");
     println!("cargo:rerun-if-changed=build.rs");
     let src = std::fs::read_to_string(path).expect("read /repo/src/abi.rs");
     let mut out = String::from("pub static ABI_CONSTS: &[(&str, &str, i128)] = &[\n");
     let mut n = 0;
+    let mut names: Vec<String> = Vec::new();
     for line in src.lines() {
         let l = line.trim_start();
         let Some(rest) = l.strip_prefix("pub const ") else { continue };
@@ -23,10 +28,39 @@ fn main() {
             continue;
         }
         let _ = writeln!(out, "    (\"{name}\", \"{ty}\", elf::abi::{name} as i128),");
+        names.push(name.to_string());
         n += 1;
     }
     out.push_str("];\n");
     let _ = writeln!(out, "pub const ABI_CONSTS_SCANNED: usize = {n};");
+    // constants the crate's *code* refers to (everything except the constant table itself and the name tables of
+    // to_str.rs): values at which behaviour may branch, used to bias generated header fields
+    let known: std::collections::HashSet<&str> = names.iter().map(|s| s.as_str()).collect();
+    let mut referenced: std::collections::BTreeSet<String> = std::collections::BTreeSet::new();
+    if let Ok(rd) = std::fs::read_dir(format!("{repo}/src")) {
+        for e in rd.flatten() {
+            let p = e.path();
+            let fname = p.file_name().and_then(|x| x.to_str()).unwrap_or("").to_string();
+            if !fname.ends_with(".rs") || fname == "abi.rs" || fname == "to_str.rs" {
+                continue;
+            }
+            println!("cargo:rerun-if-changed={}", p.display());
+            if let Ok(text) = std::fs::read_to_string(&p) {
+                // code only: stop at the unit-test module
+                let code = text.split("#[cfg(test)]").next().unwrap_or("");
+                for tok in code.split(|c: char| !(c.is_ascii_alphanumeric() || c == '_')) {
+                    if known.contains(tok) {
+                        referenced.insert(tok.to_string());
+                    }
+                }
+            }
+        }
+    }
+    out.push_str("pub static ABI_REFERENCED: &[&str] = &[\n");
+    for r in &referenced {
+        let _ = writeln!(out, "    \"{r}\",");
+    }
+    out.push_str("];\n");
     let dir = std::env::var("OUT_DIR").unwrap();
     std::fs::write(format!("{dir}/abi_table.rs"), out).unwrap();
 }
